@@ -12,7 +12,11 @@ class Unknown(Exception):
 
 
 class Thrown(Unknown):
-    """an inlined callee evaluated a throw expression; run_blocks of the caller ends with "throw" """
+    """a throw expression was evaluated (by an inlined callee, or by a hook standing for the environment); `exc` is the
+    thrown type. run_blocks transfers control to the matching handler of the innermost enclosing try, or ends with "throw" """
+    def __init__(self, msg="", exc=None):
+        Unknown.__init__(self, msg)
+        self.exc = exc
 
 
 class Evaluator:
@@ -384,7 +388,7 @@ class Evaluator:
                 sub.run_blocks(g.entry, max_steps=5000)
                 if getattr(sub, "threw", None) is not None:
                     self.threw = sub.threw
-                    raise Thrown(nm)
+                    raise Thrown(nm, exc=getattr(sub, "threw_type", None))
                 # by-reference parameters: what the callee left in them is the caller's object afterwards
                 for q, a in zip(g.params, f.args(n)):
                     if q["ct"].rstrip().endswith("&") and not q["ct"].startswith("const ") and q["name"] in sub.env:
@@ -529,6 +533,25 @@ class Evaluator:
         return w
 
     # ---- CFG walking -----------------------------------------------------
+    def _dispatch(self, n, exc):
+        """first block of the handler that catches an exception of type `exc` raised while evaluating node n (None: leaves f)"""
+        from .paths import enclosing_try, handler_blocks
+        f = self.f
+        norm = lambda t: (t or "").replace("const ", "").replace("&", "").replace(" ", "")
+        bases = getattr(self, "exc_bases", {})
+        cur = n
+        while True:
+            t = enclosing_try(f, cur)
+            if t is None:
+                return None
+            for hb in handler_blocks(f, t):
+                lab = f.blocks[hb].get("label")
+                caught = f.nodes[lab].get("caught") if lab is not None and lab in f.nodes else "..."
+                if caught == "..." or exc is None or norm(caught) == norm(exc) or norm(caught) in [norm(x) for x in bases.get(norm(exc), [])]:
+                    self._current_exc = exc
+                    return hb
+            cur = t
+
     def run_blocks(self, start, stop_blocks=(), max_steps=2000, on_call=None):
         """Walk the CFG from block `start`, folding every element; stops when a block in stop_blocks
         (or the exit) is reached. Unknown call results are tolerated when the value is unused
@@ -548,6 +571,7 @@ class Evaluator:
             # evaluate only top-level elements: elements that are not sub-expressions of a later element
             top = self.top_elements(blk)
             vals = {}
+            caught_at = None
             for e in top:
                 n = f.nodes[e]
                 if n["k"] == "DeclStmt":
@@ -565,20 +589,42 @@ class Evaluator:
                                 continue
                             try:
                                 self.env[d["name"]] = self.ev(d["init"])
-                            except Thrown:
-                                return "throw", visited
+                            except Thrown as t_:
+                                caught_at = self._dispatch(n, t_.exc)
+                                if caught_at is None:
+                                    self.threw_type = t_.exc
+                                    self.threw = getattr(self, "threw", None) or n
+                                    return "throw", visited
+                                break
                             except Unknown:
                                 self.env.pop(d["name"], None)
+                    if caught_at is not None:
+                        break
                     continue
                 if n["k"] == "CXXThrowExpr":
-                    self.threw = n
-                    return "throw", visited
+                    ty_ = n["c"][0].get("ct") if n.get("c") else getattr(self, "_current_exc", None)
+                    for ch_ in n.get("c", []):
+                        try:
+                            self.ev(ch_)
+                        except Unknown:
+                            pass
+                    caught_at = self._dispatch(n, ty_)
+                    if caught_at is None:
+                        self.threw = n
+                        self.threw_type = ty_
+                        return "throw", visited
+                    break
                 if n["k"] == "ReturnStmt":
                     if n.get("value") is not None:
                         try:
                             self.ret = self.ev(f.node(n["value"]))
-                        except Thrown:
-                            return "throw", visited
+                        except Thrown as t_:
+                            caught_at = self._dispatch(n, t_.exc)
+                            if caught_at is None:
+                                self.threw_type = t_.exc
+                                self.threw = getattr(self, "threw", None) or n
+                                return "throw", visited
+                            break
                         except Unknown as u:
                             self.ret = ("unknown", str(u))
                     else:
@@ -586,11 +632,20 @@ class Evaluator:
                     return "return", visited
                 try:
                     vals[e] = self.ev(n)
-                except Thrown:
-                    return "throw", visited
+                except Thrown as t_:
+                    caught_at = self._dispatch(n, t_.exc)
+                    if caught_at is None:
+                        self.threw_type = t_.exc
+                        self.threw = getattr(self, "threw", None) or n
+                        return "throw", visited
+                    break
                 except Unknown as u:
                     vals[e] = u
             self.__dict__.setdefault("_cache", {}).update(vals)
+            if caught_at is not None:
+                self.threw = None
+                b = caught_at
+                continue
             succ = [s for s in blk["succ"]]
             if blk.get("tempdtorbranch") and len(succ) == 2:
                 # both successors differ only in a temporary's destructor, which is not modelled
